@@ -168,4 +168,13 @@ static inline int cqv_pt_is_union(int k) { return k == K_LOGICAL_TYPE || k == K_
 /* does wire type t (as seen on the wire) match declared type w */
 static inline int cqv_pt_wire_matches(int w, int t) { return w == W_BOOL ? (t == 1 || t == 2) : (w != 0 && w == t); }
 
+
+/* LogicalType union tag -> logical type (names of the carquet public enum carquet_logical_type_id_t; tag 9 is unused in
+ * parquet.thrift, 16..18 are VARIANT/GEOMETRY/GEOGRAPHY which carquet has no enumerator for) */
+#define CQV_PT_LT_KNOWN(t) ((t) >= 1 && (t) <= 15 && (t) != 9)
+#define CQV_PT_LT_ID(t) ((t) == 1 ? CARQUET_LOGICAL_STRING : (t) == 2 ? CARQUET_LOGICAL_MAP : (t) == 3 ? CARQUET_LOGICAL_LIST : \
+  (t) == 4 ? CARQUET_LOGICAL_ENUM : (t) == 5 ? CARQUET_LOGICAL_DECIMAL : (t) == 6 ? CARQUET_LOGICAL_DATE : \
+  (t) == 7 ? CARQUET_LOGICAL_TIME : (t) == 8 ? CARQUET_LOGICAL_TIMESTAMP : (t) == 10 ? CARQUET_LOGICAL_INTEGER : \
+  (t) == 11 ? CARQUET_LOGICAL_NULL : (t) == 12 ? CARQUET_LOGICAL_JSON : (t) == 13 ? CARQUET_LOGICAL_BSON : \
+  (t) == 14 ? CARQUET_LOGICAL_UUID : (t) == 15 ? CARQUET_LOGICAL_FLOAT16 : CARQUET_LOGICAL_UNKNOWN)
 #endif
